@@ -229,12 +229,39 @@ Ltac crun_using tac :=
              | |- bind ?e' ?k' = _ =>
                  tryif is_canon e' then idtac else
                  (let H := fresh "Hev" in
-                  eassert (H : e' = _) by (pyrun_using tac; py_canon_refl);
+                  eassert (H : e' = _) by (crun_using tac; py_canon_refl);
                   rewrite H; clear H)
              end)
+      | VTuple ?xs => first_noncanon xs ltac:(fun x =>
+            let H := fresh "Hev" in
+            eassert (H : x = _) by (crun_using tac; py_canon_refl); rewrite H; clear H)
+      | VList ?xs => first_noncanon xs ltac:(fun x =>
+            let H := fresh "Hev" in
+            eassert (H : x = _) by (crun_using tac; py_canon_refl); rewrite H; clear H)
+      | VObj _ ?xs => first_noncanon xs ltac:(fun x =>
+            let H := fresh "Hev" in
+            eassert (H : x = _) by (crun_using tac; py_canon_refl); rewrite H; clear H)
+      | _ =>
+          pose_stuck;
+          lazymatch goal with
+          | py_stuck := ?s |- _ =>
+              clear py_stuck; py_trace s;
+              lazymatch s with
+              | bind ?e ?k =>
+                  let H := fresh "Hev" in
+                  eassert (H : bind e k = _) by (crun_using tac; py_canon_refl);
+                  rewrite H; clear H
+              | Rltb _ _ => py_decide_at s tac
+              | Rleb _ _ => py_decide_at s tac
+              | Reqb _ _ => py_decide_at s tac
+              | _ =>
+                  first [ match goal with H : s = _ |- _ => rewrite H end
+                        | idtac "crun: stuck on" s; fail 1 ]
+              end
+          end
       end;
       crun_using tac
-    | pyrun_using tac ]
+    | idtac ]
   end.
 Ltac crun := crun_using sph_dec.
 
